@@ -1,6 +1,8 @@
 package nfs41sim
 
 import (
+	"sort"
+	"strings"
 	"testing"
 
 	"pgregory.net/rapid"
@@ -8,7 +10,7 @@ import (
 	"verif/harness/internal/simkit"
 )
 
-const commonRule = "rapid-generated histories of 1-3 protocol-following NFSv4.1 client simulators (client IDs, CREATE_SESSION sequence IDs, session IDs, slot sequence IDs, state IDs and file handles are taken from replies only) against the real NewNFS41Program + OpenedFilesPool + NFS handle allocator + in-memory prepopulated directory with counting leaves, inside testing/synctest: every COMPOUND runs in its own goroutine, leaf I/O and VirtualOpenChild can park and are released by generated actions, synctest.Wait after every action, simulated clock. Actions: EXCHANGE_ID (same/new verifier), CREATE_SESSION (next/replay/misordered), DESTROY_SESSION, DESTROY_CLIENTID, orderly shutdown, OPEN (CLAIM_NULL all create modes, CLAIM_FH; R/W/RW), OPEN_DOWNGRADE, CLOSE, LOCK (new/existing lock-owner), LOCKT, LOCKU, FREE_STATEID, TEST_STATEID, READ/WRITE/SETATTR (open, lock, anonymous, read-bypass state IDs), REMOVE, LOOKUP, PUTFH probes, RECLAIM_COMPLETE, DESTROY_SESSION/DESTROY_CLIENTID inside SEQUENCE, clock advances around the lease time, state-ID deviations (seqid 0/old/future, other file, other client, dead, wrong kind, garbage), retransmissions, duplicates of in-flight requests, false retries, misordered sequence IDs, bad slots and sessions; final drain: release everything, all leases expire, one more call. "
+const commonRule = "rapid-generated histories of 1-3 protocol-following NFSv4.1 client simulators (client IDs, CREATE_SESSION sequence IDs, session IDs, slot sequence IDs, state IDs and file handles are taken from replies only) against the real NewNFS41Program + OpenedFilesPool + NFS handle allocator + in-memory prepopulated directory with counting leaves, inside testing/synctest: every COMPOUND runs in its own goroutine, leaf I/O and VirtualOpenChild can park and are released by generated actions, synctest.Wait after every action, simulated clock. Actions: EXCHANGE_ID (same/new verifier), CREATE_SESSION (next/replay/misordered), DESTROY_SESSION, DESTROY_CLIENTID, orderly shutdown, OPEN (CLAIM_NULL all create modes, CLAIM_FH, CLAIM_PREVIOUS with/without open state of that owner and with every delegate type, the four delegation claims, share_deny 1..3 and undefined values; R/W/RW), OPEN_DOWNGRADE, CLOSE, LOCK (new/existing lock-owner), LOCKT, LOCKU, FREE_STATEID, TEST_STATEID, READ/WRITE/SETATTR (open, lock, anonymous, read-bypass state IDs), REMOVE, RENAME (also over an open file, via PUTROOTFH and via PUTFH), LINK (also of open and of unlinked-but-open files), LOOKUP, PUTFH probes, RECLAIM_COMPLETE, DESTROY_SESSION/DESTROY_CLIENTID inside SEQUENCE, clock advances around the lease time, state-ID deviations (seqid 0/old/future, other file, other client, dead, wrong kind, garbage), retransmissions, duplicates of in-flight requests, false retries, misordered sequence IDs, bad slots and sessions; one-shot injected failures (EIO/EACCES/ENOENT) of VirtualOpenChild, VirtualOpenSelf, file allocation, VirtualRead/VirtualWrite (after the park) and VirtualSetAttributes; initial CREATE_SESSION sequence IDs at 2^32-3..2^32-1 and 0; an observer client that LOCKTs every unit x {READ, WRITE} of the files touched by a release (always in the C20 profile, 10% elsewhere, and always once before the final lease expiry); final drain: release everything, all leases expire, one more call. "
 
 func c18Profile() *profile {
 	return &profile{
@@ -26,6 +28,11 @@ func c18Profile() *profile {
 			"open":                   12,
 			"open_fh":                6,
 			"open_then":              3,
+			"open_previous":          4,
+			"open_deleg":             2,
+			"open_deny":              2,
+			"rename":                 3,
+			"link":                   2,
 			"close":                  7,
 			"downgrade":              6,
 			"lock_new":               7,
@@ -55,6 +62,8 @@ func c18Profile() *profile {
 		parkPct:  35,
 		devPct:   25,
 		cachePct: 50,
+		faultPct: 12,
+		probePct: 10,
 		nontrivial: func(l map[string]int) bool {
 			return (l["upgrade"] > 0 || l["downgrade"] > 0) && l["lock_state_created"] > 0 &&
 				(l["reclaim_with_state:lease"] > 0 || l["reclaim_with_state:replaced"] > 0)
@@ -64,9 +73,13 @@ func c18Profile() *profile {
 
 func c19Profile() *profile {
 	return &profile{
-		name:    "C19",
-		clients: [2]int{1, 2},
-		steps:   [2]int{3, 80},
+		name: "C19",
+		// Since /repo commit 88326dd (fix of finding
+		// C19/inflight-false-retry-gets-original-reply/nfs41) the strict
+		// reading applies to every C19 history.
+		strictInflightFalseRetry: true,
+		clients:                  [2]int{1, 2},
+		steps:                    [2]int{3, 80},
 		ops: weighted(map[string]int{
 			"bootstrap":             1,
 			"reregister":            1,
@@ -75,6 +88,9 @@ func c19Profile() *profile {
 			"open":                  10,
 			"open_fh":               4,
 			"open_then":             3,
+			"open_previous":         2,
+			"open_deny":             1,
+			"rename":                1,
 			"close":                 6,
 			"downgrade":             3,
 			"lock_new":              6,
@@ -102,6 +118,7 @@ func c19Profile() *profile {
 		parkPct:  50,
 		devPct:   10,
 		cachePct: 60,
+		faultPct: 6,
 		nontrivial: func(l map[string]int) bool {
 			return l["replay_of_successful_state_op"] > 0 && l["inflight_duplicate_completed_with_original"] > 0
 		},
@@ -137,6 +154,8 @@ func c20Profile() *profile {
 		parkPct:  15,
 		devPct:   8,
 		cachePct: 50,
+		faultPct: 3,
+		probePct: 100,
 		nontrivial: func(l map[string]int) bool {
 			return l["lock_owners_granted>=2"] > 0 && (l["lock_split"] > 0 || l["lock_merge"] > 0) && l["lock_range_to_max_offset"] > 0
 		},
@@ -164,7 +183,7 @@ func runProperty(t *testing.T, p *profile, rec *simkit.Recorder) {
 
 func TestC18NFS41StateAccounting(t *testing.T) {
 	rec := simkit.NewRecorder(t, "C18", "nfs41_state_accounting", commonRule+
-		"ORACLE: per counting leaf and share bit closes <= opens at all times and no VirtualRead/VirtualWrite while that bit's count is 0 (checked inside the leaf, at the start and at the end of every I/O call); at every quiescence the outstanding open count per leaf and bit equals what the replies imply is held (open state per open-owner incl. upgrades/downgrades, share access cloned into lock state, parked I/O, OPENs parked after VirtualOpenChild), VerifStateCounts == model (clients, incarnations, sessions, hold count, idle list, open-owners, open-owner files, lock-owner files), opened-files pool == files with open state, all locks free; every operation's status == reference model of state-ID resolution in the requesting client's own namespace (RFC 8881 8.2: other file/foreign/dead => BAD_STATEID, old seqid => OLD_STATEID, future => BAD_STATEID) with the model unchanged on rejection; PUTFH of an unlinked file succeeds while open state exists and is NFS4ERR_STALE afterwards; after all leases expired + one call everything is zero. "+
+		"ORACLE: per counting leaf and share bit closes <= opens at all times and no VirtualRead/VirtualWrite while that bit's count is 0 (checked inside the leaf, at the start and at the end of every I/O call); at every quiescence the outstanding open count per leaf and bit equals what the replies imply is held (open state per open-owner incl. upgrades/downgrades, share access cloned into lock state, parked I/O, OPENs parked after VirtualOpenChild), VerifStateCounts == model (clients, incarnations, sessions, hold count, idle list, open-owners, open-owner files, lock-owner files), opened-files pool == files with open state, all locks free; every operation's status == reference model of state-ID resolution in the requesting client's own namespace (RFC 8881 8.2: other file/foreign/dead => BAD_STATEID, old seqid => OLD_STATEID, future => BAD_STATEID) with the model unchanged on rejection; PUTFH of a file without names (after REMOVE of the last name or RENAME over it) succeeds and I/O through its state IDs works while open state exists, and is NFS4ERR_STALE afterwards; a request in which an injected failure fired fails at that operation with the NFSv4 equivalent of the injected status and changes neither the model nor any count (a failed or refused OPEN leaves no open behind: CLAIM_PREVIOUS refused after the leaf was opened must close it again); delegation claims and share_deny are refused with all counters unchanged; after all leases expired + one call everything is zero. "+
 		"NON-TRIVIAL: an upgrade or downgrade happened, lock state was created, and state was reclaimed by lease expiry or re-registration. Distinct by script hash")
 	runProperty(t, c18Profile(), rec)
 }
@@ -182,7 +201,58 @@ func TestC19NFS41ExactlyOnce(t *testing.T) {
 
 func TestC20NFS41ByteRangeLocks(t *testing.T) {
 	rec := simkit.NewRecorder(t, "C20", "nfs41_byte_range_locks", commonRule+
-		"Lock ranges begin and end at 14 points (0..6, 2^64-7..2^64-1; lengths incl. all-ones, zero and overflowing ones). ORACLE: per-file per-byte reference map keyed by (client ID, lock-owner bytes) over 13 units: LOCK granted <=> no other owner holds a conflicting byte, also when the same lock-owner locks through a second open/open-owner of the file; a DENIED reply (LOCK and LOCKT) must name an owner other than the requester that holds every byte of the named range with the named type, overlapping and conflicting with the request; LOCKT denied <=> the same LOCK would be denied (own locks never conflict); LOCKU frees exactly the range; CLOSE, lease expiry, re-registration free exactly the bytes of the lock-owners of that open / client; FREE_STATEID => NFS4ERR_LOCKS_HELD <=> the lock-owner still holds bytes on that file; zero-length and overflowing ranges => NFS4ERR_INVAL. "+
+		"Lock ranges begin and end at 14 points (0..6, 2^64-7..2^64-1; lengths incl. all-ones, zero and overflowing ones). ORACLE: per-file per-byte reference map keyed by (client ID, lock-owner bytes) over 13 units: LOCK granted <=> no other owner holds a conflicting byte, also when the same lock-owner locks through a second open/open-owner of the file; a DENIED reply (LOCK and LOCKT) must name an owner other than the requester that holds every byte of the named range with the named type, overlapping and conflicting with the request; LOCKT denied <=> the same LOCK would be denied (own locks never conflict); LOCKU frees exactly the range; CLOSE, lease expiry, re-registration free exactly the bytes of the lock-owners of that open / client - both decided on the server's lock table by the observer's per-unit LOCKT sweep after every such step (26 LOCKTs per file against the model); FREE_STATEID => NFS4ERR_LOCKS_HELD <=> the lock-owner still holds bytes on that file; zero-length and overflowing ranges => NFS4ERR_INVAL. "+
 		"NON-TRIVIAL: >= 2 lock-owners were granted locks, a split or merge happened, and a range ended at the maximum offset. Distinct by script hash")
 	runProperty(t, c20Profile(), rec)
+}
+
+// TestC19NFS41InflightFalseRetry: the C19 histories with more false
+// retries of requests that are still being processed, and the strict
+// reading of "a retransmission whose content differs from the original is
+// never answered with another request's reply" for them: when the
+// original's reply does not fit the operation list of the retry (the very
+// test the replay branch of SEQUENCE applies to a completed original),
+// the retry must be refused instead of receiving that reply.
+func TestC19NFS41InflightFalseRetry(t *testing.T) {
+	p := c19Profile()
+	p.strictInflightFalseRetry = true
+	p.ops = append(p.ops, "false_retry", "false_retry", "false_retry", "false_retry", "false_retry", "false_retry", "release", "release")
+	sort.Strings(p.ops)
+	p.nontrivial = func(l map[string]int) bool {
+		return l["false_retry_inflight_rejected"] > 0 && l["inflight_duplicate_completed_with_original"] > 0
+	}
+	if simkit.KnownOpen("C19/inflight-duplicate-never-returns/nfs41") {
+		p.excludeDup = true
+	}
+	rec := simkit.NewRecorder(t, "C19", "nfs41_inflight_false_retry", commonRule+
+		"Like nfs41_exactly_once, with 70% of the false retries aimed at a slot whose request is parked. ORACLE (in addition to all oracles of nfs41_exactly_once): a request that reuses slot and sequence ID of a request that is still being processed with an operation list that the original's complete reply does not fit (more results than operations, a successful reply with a different number of results, or a result of a different operation type; the same rule opSequence applies to completed requests and the upstream FalseRetries tests document) must be answered by a failing SEQUENCE (NFS4ERR_SEQ_FALSE_RETRY, or any other refusal), never with the original's reply, and must not execute. "+
+		"NON-TRIVIAL: such a false retry was refused AND a true duplicate of an in-flight request completed with the original's result. Distinct by script hash")
+	runProperty(t, p, rec)
+}
+
+// TestC14NFS41LocksReleased: the general C18 history generator with more
+// injected faults, registered for C14: after every request (at every
+// quiescence) the lock of the NFSv4.1 program, the lock of every idle
+// client incarnation, the lock of the opened files pool, the byte-range
+// lock table lock of every opened file and the lock of the NFS handle pool
+// must be free, the root directory must answer, and no request may hang.
+func TestC14NFS41LocksReleased(t *testing.T) {
+	p := c18Profile()
+	p.name = "C14"
+	p.faultPct = 30
+	p.devPct = 30
+	p.labelErrorReturns = true
+	p.nontrivial = func(l map[string]int) bool {
+		n := 0
+		for k := range l {
+			if strings.HasPrefix(k, "error_return:") {
+				n++
+			}
+		}
+		return l["fault_fired"] > 0 && n >= 4
+	}
+	rec := simkit.NewRecorder(t, "C14", "nfs41_locks_released", commonRule+
+		"Generator of nfs41_state_accounting (incl. OPEN with every claim type and share_deny, RENAME, LINK) with one-shot injected failures of VirtualOpenChild, VirtualOpenSelf, file allocation, VirtualRead, VirtualWrite, VirtualSetAttributes in 30% of the requests that can reach them and 30% state-ID deviations, so that the error returns of the operations are reached (labelled error_return:<operation>:<status>). ORACLE after every request, at quiescence (every request of the case has returned or is parked inside the leaf / before or after VirtualOpenChild, i.e. outside of all locks of the program): VerifStateCounts can take nfs41Program.clientsLock and the lock of every client incarnation without a request in flight, VerifOpenedCount/VerifUseCount can take OpenedFilesPool.lock and every OpenedFile.locksLock, VerifNFSHandlePoolLockIsFree holds (all TryLock probes); every request that is not parked has returned (a request that blocks on a leaked mutex makes the case hang, which a real-time watchdog outside the bubble reports as VERIF-VIOLATION after 45 s); all oracles of nfs41_state_accounting stay armed. "+
+		"NON-TRIVIAL: an injected fault fired and error returns of at least four distinct (operation, status) kinds were reached. Distinct by script hash")
+	runProperty(t, p, rec)
 }
